@@ -1335,6 +1335,27 @@ impl super::DiskFS for Disk {
             error!("file image has the volume label or directory attribute, it cannot be written as a file");
             return Err(Box::new(Error::WriteFault));
         }
+        // Everything that can refuse the file image comes before anything is changed: `write_file` used to find a
+        // missing chunk only after it had taken clusters for the chunks before it (they stayed allocated to no file),
+        // a chunk longer than a cluster was cut off silently, and a length beyond what the chunks hold was stored
+        // as it was (an entry whose size exceeds its cluster chain).
+        for count in 0..fimg.end() {
+            match fimg.chunks.get(&count) {
+                Some(data) if data.len() <= fimg.chunk_len => {},
+                _ => {
+                    error!("FAT file image has a hole or an oversized chunk at {}",count);
+                    return Err(Box::new(Error::WriteFault));
+                }
+            }
+        }
+        if fimg.eof.len()>=4 {
+            // the four bytes that become the size field of the entry
+            let size = u32::from_le_bytes([fimg.eof[0],fimg.eof[1],fimg.eof[2],fimg.eof[3]]) as usize;
+            if size > fimg.end()*fimg.chunk_len {
+                error!("FAT file image length {} exceeds its {} chunks",size,fimg.end());
+                return Err(Box::new(Error::WriteFault));
+            }
+        }
         match self.prepare_to_write(&fimg.full_path) {
             Ok((name,mut loc)) => {
                 // create the entry
